@@ -10,8 +10,10 @@ def run(tier):
     chk = common.Check("C01", tier)
     chk.lean_obligations(THEOREMS)
     n = 300 if tier == "quick" else 5000
-    cases, results = engine.run_corpus(n, chk.seed, certify=True, timeout=10 if tier == "quick" else 30,
-                                       big=False)
+    cases = [engine.make_case(i, chk.seed, engine.LOGICS_KERNEL, engine.OPTION_VECTORS) for i in range(n)]
+    cases += [engine.make_steered_case(i, chk.seed, engine.OPTION_VECTORS[i % 7] if i % 3 == 0 and ":incremental false" not in engine.OPTION_VECTORS[i % 7] else ())
+              for i in range(100 if tier == "quick" else 3000)]
+    results = engine.run_cases(cases, certify=True, timeout=10 if tier == "quick" else 30)
     unsat = sat = timeouts = 0
     stats = {}
     for c, r in zip(cases, results):
@@ -24,6 +26,12 @@ def run(tier):
         for k, v in r["stats"].items():
             stats[k] = stats.get(k, 0) + v
         ok = all(v.startswith("OK") for v in r["verdicts"])
+        wrong = [w for w in engine.wrong_answers(c, r) if w[1] == "unsat"]
+        if wrong:
+            chk.obligation(False)
+            chk.violation("wrong-answer", f"check #{wrong[0][0]} answers unsat, the assertions are satisfiable (exhaustive "
+                          f"enumeration of the propositional history) ({c['options']})",
+                          {"script": c["script"], "impl_answers": r["answers"], "expected": c["expected"]})
         chk.case(key=(c["idx"], nu), nontrivial=nu > 0,
                  sample={"logic": c["logic"], "options": c["options"], "kind": c["kind"], "answers": r["answers"],
                          "lean": r["verdicts"]} if nu > 0 else None)
